@@ -23,6 +23,8 @@ broadcast use iset_laws::lemma_iset_intersect_comm, iset_laws::lemma_iset_union_
 //@verify eval_ax
 //@verify eval_eg
 //@verify eval_af
+//@verify eval_eu
+//@verify eval_ef
 //@verify eval_eu_saturated
 //@verify eval_ef_saturated
 //@verify eval_ag
